@@ -209,8 +209,10 @@ Lemma strip_app_space_r s w : forallb is_space w = true -> strip (s ++ w) = stri
 Proof.
   intros H. destruct (lstrip_cases s) as [[Hs _]|[u [c [r [E [Hu [Hc _]]]]]]].
   - rewrite (strip_all s Hs). apply strip_all. rewrite forallb_app. rewrite Hs, H. reflexivity.
-  - subst s. rewrite <- app_assoc. rewrite !strip_app_space_l by exact Hu.
-    simpl. rewrite !strip_cons_stop by exact Hc. f_equal. apply rstrip_app_space. exact H.
+  - subst s. rewrite <- app_assoc.
+    rewrite (strip_app_space_l u ((c :: r) ++ w) Hu). rewrite (strip_app_space_l u (c :: r) Hu).
+    simpl. rewrite (strip_cons_stop c (r ++ w) Hc). rewrite (strip_cons_stop c r Hc).
+    f_equal. apply rstrip_app_space. exact H.
 Qed.
 
 Lemma strip_sandwich w1 s w2 : forallb is_space w1 = true -> forallb is_space w2 = true ->
@@ -286,6 +288,15 @@ Proof.
   change ((c :: w) ++ s) with (c :: (w ++ s)). simpl. rewrite H1. apply IH. exact H2.
 Qed.
 
+Lemma split_ws_cons c r :
+  split_ws (c :: r) =
+  if is_space c then split_ws r
+  else match r with
+       | [] => [[c]]
+       | c' :: _ => if is_space c' then [c] :: split_ws r else cons_first c (split_ws r)
+       end.
+Proof. reflexivity. Qed.
+
 Lemma split_ws_all w : forallb is_space w = true -> split_ws w = [].
 Proof.
   intros H. rewrite <- (app_nil_r w). rewrite split_ws_app_space_l by exact H. reflexivity.
@@ -295,16 +306,14 @@ Lemma split_ws_app_space_r s w : forallb is_space w = true -> split_ws (s ++ w) 
 Proof.
   intros H. induction s as [|c r IH].
   - simpl. apply split_ws_all. exact H.
-  - change ((c :: r) ++ w) with (c :: (r ++ w)). simpl.
+  - change ((c :: r) ++ w) with (c :: (r ++ w)).
+    rewrite (split_ws_cons c (r ++ w)), (split_ws_cons c r).
     destruct (is_space c); [exact IH|].
     destruct r as [|c' r'].
-    + simpl. destruct w as [|x w']; [reflexivity|].
-      simpl in H. apply andb_true_iff in H. destruct H as [Hx Hw]. rewrite Hx.
-      assert (split_ws (x :: w') = []) as E.
-      { apply split_ws_all. simpl. rewrite Hx, Hw. reflexivity. }
-      rewrite E. reflexivity.
-    + change ((c' :: r') ++ w) with (c' :: (r' ++ w)) in *.
-      destruct (is_space c'); rewrite IH; reflexivity.
+    + change ([] ++ w) with w. destruct w as [|x w']; [reflexivity|].
+      assert (split_ws (x :: w') = []) as E by (apply split_ws_all; exact H).
+      rewrite E. simpl in H. apply andb_true_iff in H. destruct H as [Hx Hw]. rewrite Hx. reflexivity.
+    + rewrite IH. change ((c' :: r') ++ w) with (c' :: (r' ++ w)). reflexivity.
 Qed.
 
 Lemma split_ws_cons_nonspace c r : is_space c = false -> split_ws (c :: r) <> [].
@@ -382,4 +391,335 @@ Qed.
 Lemma not_In_of_removelast_last c l : ~ In c (removelast l) -> last_is c l = false -> ~ In c l.
 Proof.
   intros H1 H2 H. apply In_removelast_or_last in H. destruct H as [H|H]; [tauto | congruence].
+Qed.
+
+(* ================================================================ parse_itp_line by cases *)
+Lemma blank_re_header s : is_blank s = true -> re_header s = false.
+Proof.
+  destruct s as [|c r]; [reflexivity|]. unfold is_blank. simpl.
+  intros H. apply andb_true_iff in H. destruct H as [H _].
+  destruct (Ascii.eqb c "[") eqn:E; [|reflexivity].
+  apply Ascii.eqb_eq in E. subst c. rewrite sp_lbr in H. discriminate.
+Qed.
+
+Lemma blank_startswith c s : is_space c = false -> is_blank s = true -> startswith c s = false.
+Proof.
+  intros Hc Hs. destruct (startswith c s) eqn:E; [|reflexivity].
+  apply startswith_In in E. exfalso. exact (blank_not_In c s Hc Hs E).
+Qed.
+
+Inductive pil_case (l c m : str) : Prop :=
+| PBlank : is_blank l = true -> c = [] -> m = [] -> pil_case l c m
+| PDir : is_blank l = false -> startswith "#" l = true -> c = [] -> m = l -> pil_case l c m
+| PSemi0 : startswith "#" l = false -> l = ";" :: m -> c = [] -> pil_case l c m
+| PSemi : startswith "#" l = false -> l = c ++ ";" :: m -> ~ In ";" c -> c <> [] -> m <> [] -> pil_case l c m
+| PSemiLast : startswith "#" l = false -> l = c ++ [";"] -> ~ In ";" c -> c <> [] -> m = [] -> pil_case l c m
+| PNone : is_blank l = false -> startswith "#" l = false -> ~ In ";" l -> c = l -> m = [] -> pil_case l c m.
+
+Lemma parse_itp_line_cases l c m :
+  parse_itp_line l = Ok (c, m) -> pil_case l c m /\ re_header l = false.
+Proof.
+  unfold parse_itp_line. destruct (is_blank l) eqn:B.
+  { intros H. inversion H; subst. split; [apply PBlank; auto | apply blank_re_header; exact B]. }
+  destruct (re_header l) eqn:R; [discriminate|].
+  destruct (startswith "#" l) eqn:S.
+  { intros H. inversion H; subst. split; [apply PDir; auto | reflexivity]. }
+  destruct (startswith ";" l) eqn:S2.
+  { intros H. inversion H; subst. split; [|reflexivity].
+    apply startswith_true in S2. destruct S2 as [r E]. subst l. apply PSemi0; auto. }
+  destruct (mem ";" (removelast l)) eqn:M.
+  { destruct (cut_at ";" l) as [[a b]|] eqn:C; [|discriminate].
+    intros H. inversion H; subst. split; [|reflexivity].
+    apply cut_at_some in C. destruct C as [E N]. apply PSemi; auto.
+    - intros F. subst c. subst l. simpl in S2. discriminate.
+    - intros F. subst m. subst l. rewrite removelast_last in M. apply mem_In in M. contradiction. }
+  apply mem_false in M.
+  destruct (last_is ";" l) eqn:La.
+  { intros H. inversion H; subst. split; [|reflexivity].
+    apply last_is_true in La. apply PSemiLast; auto.
+    intros F. rewrite F in La. simpl in La. rewrite La in S2. simpl in S2. discriminate. }
+  intros H. inversion H; subst. split; [|reflexivity].
+  apply PNone; auto. apply not_In_of_removelast_last; assumption.
+Qed.
+
+Lemma parse_itp_line_total l : re_header l = false -> exists c m, parse_itp_line l = Ok (c, m).
+Proof.
+  intros R. unfold parse_itp_line. rewrite R.
+  destruct (is_blank l); [eauto|].
+  destruct (startswith "#" l); [eauto|].
+  destruct (startswith ";" l); [eauto|].
+  destruct (mem ";" (removelast l)) eqn:M.
+  - apply mem_In in M. apply In_removelast in M.
+    destruct (cut_at ";" l) as [[a b]|] eqn:C; [eauto|].
+    apply cut_at_none in C. contradiction.
+  - destruct (last_is ";" l); eauto.
+Qed.
+
+(* ================================================================ spec_entry by cases *)
+Lemma spec_entry_dir l : startswith "#" l = true -> spec_entry l = ([], strip l).
+Proof. intros H. unfold spec_entry. rewrite H. reflexivity. Qed.
+
+Lemma spec_entry_cut a b : startswith "#" (a ++ ";" :: b) = false -> ~ In ";" a ->
+  spec_entry (a ++ ";" :: b) = (split_ws a, strip b).
+Proof. intros H N. unfold spec_entry. rewrite H. rewrite cut_at_app by exact N. reflexivity. Qed.
+
+Lemma spec_entry_nosemi l : startswith "#" l = false -> ~ In ";" l -> spec_entry l = (split_ws l, []).
+Proof.
+  intros H N. unfold spec_entry. rewrite H. apply cut_at_none in N. rewrite N. reflexivity.
+Qed.
+
+Lemma spec_entry_blank l : is_blank l = true -> spec_entry l = ([], []).
+Proof.
+  intros B. rewrite spec_entry_nosemi.
+  - rewrite (proj2 (split_ws_nil_iff l) B). reflexivity.
+  - apply blank_startswith; [reflexivity | exact B].
+  - apply blank_not_In; [reflexivity | exact B].
+Qed.
+
+Lemma pil_case_entry l c m : pil_case l c m -> (split_ws (strip c), strip m) = spec_entry l.
+Proof.
+  intros [B Ec Em | B S Ec Em | S El Ec | S El N Nc Nm | S El N Nc Em | B S N Ec Em].
+  - subst. rewrite spec_entry_blank by exact B. reflexivity.
+  - subst. rewrite spec_entry_dir by exact S. reflexivity.
+  - subst. change (";" :: m) with ([] ++ ";" :: m) in *.
+    rewrite (spec_entry_cut [] m S) by (simpl; tauto). reflexivity.
+  - subst l. rewrite spec_entry_cut by assumption. rewrite split_ws_strip. reflexivity.
+  - subst. rewrite spec_entry_cut by assumption. rewrite split_ws_strip. reflexivity.
+  - subst. rewrite spec_entry_nosemi by assumption. rewrite split_ws_strip. reflexivity.
+Qed.
+
+(* ================================================================ parse_line *)
+Definition fields_expr (k : kind) (c : str) : res fields :=
+  match k with
+  | KPlain => Ok FNone
+  | KAtom => if nonempty (strip c) then let* a := atom_fields (split_ws (strip c)) in Ok (FAtom a) else Ok FNone
+  | KBond => if nonempty (strip c) then bond_fields (split_ws (strip c)) else Ok FNone
+  | KMol => if nonempty (strip c) then mol_fields (split_ws (strip c)) else Ok FNone
+  end.
+
+Lemma fields_expr_eq k c : fields_expr k c = fields_of k (split_ws (strip c)).
+Proof.
+  unfold fields_expr. destruct (strip c) as [|x r] eqn:E.
+  - simpl. destruct k; reflexivity.
+  - apply strip_head_nonspace in E.
+    pose proof (split_ws_cons_nonspace x r E) as N.
+    destruct (split_ws (x :: r)) as [|t ts]; [contradiction|].
+    simpl. destruct k; reflexivity.
+Qed.
+
+Lemma parse_line_unfold k l :
+  parse_line k l =
+  let* cm := parse_itp_line l in
+  let* f := fields_expr k (fst cm) in
+  Ok {| p_content := fst cm; p_comment := snd cm; p_directive := startswith "#" l; p_fields := f |}.
+Proof. reflexivity. Qed.
+
+Lemma parse_line_inv k l p : parse_line k l = Ok p ->
+  parse_itp_line l = Ok (p_content p, p_comment p) /\
+  fields_of k (split_ws (strip (p_content p))) = Ok (p_fields p) /\
+  p_directive p = startswith "#" l.
+Proof.
+  rewrite parse_line_unfold. intros H.
+  apply bind_ok in H. destruct H as [[c m] [H1 H2]].
+  apply bind_ok in H2. destruct H2 as [f [H2 H3]]. inversion H3; subst. simpl in *.
+  rewrite fields_expr_eq in H2. auto.
+Qed.
+
+Lemma parse_line_intro k l c m f : parse_itp_line l = Ok (c, m) ->
+  fields_of k (split_ws (strip c)) = Ok f ->
+  parse_line k l = Ok {| p_content := c; p_comment := m; p_directive := startswith "#" l; p_fields := f |}.
+Proof.
+  intros H1 H2. rewrite parse_line_unfold. rewrite H1. simpl.
+  rewrite fields_expr_eq. rewrite H2. reflexivity.
+Qed.
+
+(* L1 *)
+Lemma parse_line_entry : forall k l p, parse_line k l = Ok p ->
+  entry_of p = spec_entry l /\
+  fields_of k (fst (spec_entry l)) = Ok (p_fields p) /\
+  p_directive p = startswith "#" l /\
+  parse_itp_line l = Ok (p_content p, p_comment p) /\
+  re_header l = false.
+Proof.
+  intros k l p H. apply parse_line_inv in H. destruct H as [H1 [H2 H3]].
+  pose proof (parse_itp_line_cases _ _ _ H1) as [C R].
+  apply pil_case_entry in C.
+  assert (entry_of p = spec_entry l) as E by exact C.
+  split; [exact E|]. split; [|auto].
+  rewrite <- C. exact H2.
+Qed.
+
+(* L2 *)
+Lemma parse_line_complete : forall k l f, re_header l = false ->
+  fields_of k (fst (spec_entry l)) = Ok f -> exists p, parse_line k l = Ok p.
+Proof.
+  intros k l f R F. destruct (parse_itp_line_total l R) as [c [m H]].
+  pose proof (parse_itp_line_cases _ _ _ H) as [C _]. apply pil_case_entry in C.
+  rewrite <- C in F. simpl in F.
+  eexists. apply (parse_line_intro k l c m f H F).
+Qed.
+
+(* ================================================================ L3: a newline added at the end *)
+Lemma cut_at_snoc d s x : x <> d ->
+  cut_at d (s ++ [x]) = match cut_at d s with Some (a, b) => Some (a, b ++ [x]) | None => None end.
+Proof.
+  intros N. induction s as [|c r IH]; simpl.
+  - destruct (Ascii.eqb x d) eqn:E; [apply Ascii.eqb_eq in E; contradiction | reflexivity].
+  - destruct (Ascii.eqb c d); [reflexivity|]. rewrite IH.
+    destruct (cut_at d r) as [[a b]|]; reflexivity.
+Qed.
+
+Lemma strip_snoc_space s c : is_space c = true -> strip (s ++ [c]) = strip s.
+Proof. intros H. apply strip_app_space_r. simpl. rewrite H. reflexivity. Qed.
+
+Lemma split_ws_snoc_space s c : is_space c = true -> split_ws (s ++ [c]) = split_ws s.
+Proof. intros H. apply split_ws_app_space_r. simpl. rewrite H. reflexivity. Qed.
+
+Lemma re_header_snoc_nl l : re_header (l ++ [ch_nl]) = re_header l.
+Proof.
+  destruct l as [|c r]; [reflexivity|]. simpl.
+  rewrite takewhile_snoc_stop by reflexivity. reflexivity.
+Qed.
+
+Lemma is_hdr_snoc_nl l : is_hdr (l ++ [ch_nl]) = is_hdr l.
+Proof. unfold is_hdr. rewrite strip_snoc_space by reflexivity. reflexivity. Qed.
+
+Lemma startswith_snoc c l x : x <> c -> startswith c (l ++ [x]) = startswith c l.
+Proof.
+  intros N. destruct l as [|y r]; [|reflexivity]. simpl.
+  destruct (Ascii.eqb x c) eqn:E; [apply Ascii.eqb_eq in E; contradiction | reflexivity].
+Qed.
+
+Lemma spec_entry_snoc_nl l : spec_entry (l ++ [ch_nl]) = spec_entry l.
+Proof.
+  unfold spec_entry. rewrite startswith_snoc by discriminate.
+  destruct (startswith "#" l).
+  - rewrite strip_snoc_space by reflexivity. reflexivity.
+  - rewrite cut_at_snoc by discriminate.
+    destruct (cut_at ";" l) as [[a b]|].
+    + rewrite strip_snoc_space by reflexivity. reflexivity.
+    + rewrite split_ws_snoc_space by reflexivity. reflexivity.
+Qed.
+
+Lemma spec_entry_add_nl : forall l, l <> [] -> ~ In ch_nl l ->
+  spec_entry (l ++ [ch_nl]) = spec_entry l /\
+  is_hdr (l ++ [ch_nl]) = is_hdr l /\
+  re_header (l ++ [ch_nl]) = re_header l.
+Proof.
+  intros l _ _. split; [apply spec_entry_snoc_nl|]. split; [apply is_hdr_snoc_nl | apply re_header_snoc_nl].
+Qed.
+
+(* ================================================================ L4: the shape of header lines *)
+Definition hd_shape (s : str) : bool :=
+  match s with d :: r => Ascii.eqb d "[" && mem "]" r | [] => false end.
+
+Lemma hd_shape_iff s : hd_shape s = true <-> exists r, s = "[" :: r /\ In "]" r.
+Proof.
+  destruct s as [|d r]; simpl.
+  - split; [discriminate | intros [r [E _]]; discriminate].
+  - rewrite andb_true_iff. rewrite Ascii.eqb_eq. rewrite mem_In. split.
+    + intros [E H]. subst d. exists r. auto.
+    + intros [r' [E H]]. inversion E; subst. auto.
+Qed.
+
+Lemma re_header_shape s : re_header s = true -> hd_shape s = true.
+Proof.
+  destruct s as [|d r]; simpl; [auto|].
+  intros H. apply andb_true_iff in H. destruct H as [H1 H2]. rewrite H1. simpl.
+  apply mem_In. apply mem_In in H2. eapply In_takewhile. exact H2.
+Qed.
+
+Lemma In_takewhile_not_nl c r : c <> ch_nl -> ~ In ch_nl (removelast r) -> In c r ->
+  In c (takewhile not_nl r).
+Proof.
+  intros Nc. induction r as [|x r IH]; [simpl; tauto|].
+  intros N H. assert (not_nl x = true -> In c (takewhile not_nl (x :: r))) as K.
+  { intros T. simpl. rewrite T. destruct H as [H|H]; [left; exact H|]. right. apply IH; [|exact H].
+    destruct r as [|y r']; [simpl; tauto|]. intros F. apply N. simpl. right. exact F. }
+  destruct r as [|y r'].
+  - destruct H as [H|[]]. subst x. apply K. unfold not_nl.
+    destruct (Ascii.eqb c ch_nl) eqn:E; [apply Ascii.eqb_eq in E; contradiction | reflexivity].
+  - apply K. unfold not_nl. destruct (Ascii.eqb x ch_nl) eqn:E; [|reflexivity].
+    apply Ascii.eqb_eq in E. exfalso. apply N. simpl. left. exact E.
+Qed.
+
+Lemma shape_re_header s : ~ In ch_nl (removelast s) -> hd_shape s = true -> re_header s = true.
+Proof.
+  destruct s as [|d r]; simpl; [auto|].
+  intros N H. apply andb_true_iff in H. destruct H as [H1 H2]. rewrite H1. simpl.
+  apply mem_In. apply mem_In in H2. apply In_takewhile_not_nl; [discriminate | | exact H2].
+  destruct r as [|y r']; [simpl; tauto|]. intros F. apply N. right. exact F.
+Qed.
+
+Lemma removelast_strip_In x l : In x (removelast (strip l)) -> In x (removelast l).
+Proof.
+  intros H. apply In_removelast_iff in H. destruct H as [a [b [E N]]].
+  destruct (strip_decomp l) as [w1 [w2 [El _]]].
+  apply In_removelast_iff. exists (w1 ++ a), (b ++ w2). split.
+  - rewrite El at 1. rewrite E. rewrite <- !app_assoc. reflexivity.
+  - intros F. apply app_eq_nil in F. destruct F as [F _]. contradiction.
+Qed.
+
+Lemma strip_lstrip_cons l c r : lstrip l = c :: r -> strip l = c :: rstrip r /\ is_space c = false.
+Proof.
+  intros L. destruct (lstrip_cases l) as [[_ E]|[w [c' [r' [_ [_ [Hc E]]]]]]]; [congruence|].
+  rewrite L in E. inversion E; subst c' r'. split; [|exact Hc].
+  unfold strip. rewrite L. apply (rstrip_app_stop [] c r Hc).
+Qed.
+
+Lemma is_hdr_shape l : is_hdr l = true -> hd_shape (lstrip l) = true.
+Proof.
+  unfold is_hdr. intros H. apply re_header_shape in H.
+  destruct (lstrip l) as [|c r] eqn:L.
+  - unfold strip in H. rewrite L in H. simpl in H. discriminate.
+  - destruct (strip_lstrip_cons l c r L) as [E _]. rewrite E in H. simpl in *.
+    apply andb_true_iff in H. destruct H as [H1 H2]. rewrite H1. simpl.
+    apply mem_In. apply mem_In in H2. apply (proj1 (In_rstrip "]" r sp_rbr)). exact H2.
+Qed.
+
+Lemma shape_is_hdr l : ~ In ch_nl (removelast l) -> hd_shape (lstrip l) = true -> is_hdr l = true.
+Proof.
+  intros N H. unfold is_hdr. apply shape_re_header.
+  - intros F. apply N. apply removelast_strip_In. exact F.
+  - destruct (lstrip l) as [|c r] eqn:L; [discriminate|].
+    destruct (strip_lstrip_cons l c r L) as [E _]. rewrite E. simpl in *.
+    apply andb_true_iff in H. destruct H as [H1 H2]. rewrite H1. simpl.
+    apply mem_In. apply mem_In in H2. apply (proj2 (In_rstrip "]" r sp_rbr)). exact H2.
+Qed.
+
+Lemma is_hdr_shape_iff l : line_ok l -> (is_hdr l = true <-> hd_shape (lstrip l) = true).
+Proof. intros [_ N]. split; [apply is_hdr_shape | apply shape_is_hdr; exact N]. Qed.
+
+Lemma re_header_shape_iff l : line_ok l -> (re_header l = true <-> hd_shape l = true).
+Proof. intros [_ N]. split; [apply re_header_shape | apply shape_re_header; exact N]. Qed.
+
+Lemma lstrip_shape_iff l : hd_shape (lstrip l) = true <->
+  exists w r, l = w ++ "[" :: r /\ forallb is_space w = true /\ In "]" r.
+Proof.
+  rewrite hd_shape_iff. split.
+  - intros [r [E H]]. destruct (lstrip_cases l) as [[_ L]|[w [c [r' [El [Hw [_ L]]]]]]]; [congruence|].
+    rewrite L in E. inversion E; subst. exists w, r. auto.
+  - intros [w [r [E [Hw H]]]]. exists r. split; [|exact H]. subst l.
+    rewrite lstrip_app_space by exact Hw. apply lstrip_cons_stop. reflexivity.
+Qed.
+
+Lemma is_hdr_char : forall l, line_ok l ->
+  (is_hdr l = true <->
+   exists w r, l = w ++ "[" :: r /\ forallb is_space w = true /\ In "]" r).
+Proof. intros l H. rewrite (is_hdr_shape_iff l H). apply lstrip_shape_iff. Qed.
+
+Lemma re_header_char : forall l, line_ok l ->
+  (re_header l = true <-> exists r, l = "[" :: r /\ In "]" r).
+Proof. intros l H. rewrite (re_header_shape_iff l H). apply hd_shape_iff. Qed.
+
+Lemma re_header_is_hdr l : line_ok l -> re_header l = true -> is_hdr l = true.
+Proof.
+  intros H R. apply (is_hdr_char l H). apply (re_header_char l H) in R.
+  destruct R as [r [E I]]. exists [], r. auto.
+Qed.
+
+Lemma is_hdr_false_re_header l : line_ok l -> is_hdr l = false -> re_header l = false.
+Proof.
+  intros H F. destruct (re_header l) eqn:R; [|reflexivity].
+  apply (re_header_is_hdr l H) in R. congruence.
 Qed.
